@@ -145,6 +145,10 @@ pub enum EvKind {
     Sample { put: usize, digest: Option<(u64, u64)> },
     Blackout { src: usize, dst: usize, on: bool },
     ClockJump { us: u64 },
+    /// the entity's daemon, transport and every transaction task vanish (only files survive)
+    Crash { ent: usize },
+    /// a fresh daemon is started for the entity on the surviving filestore
+    Restart { ent: usize },
     Panic { msg: String },
     Note { msg: String },
 }
@@ -274,6 +278,8 @@ enum Action {
     Inject { src: usize, dst: usize, what: What, delay_us: u64 },
     ClockJump { us: u64 },
     Stall { ent: usize, us: u64 },
+    Crash { ent: usize },
+    Restart { ent: usize },
 }
 
 struct Pending {
@@ -336,6 +342,11 @@ struct Inner {
     sample_puts: bool,
     dest_paths: Vec<Option<std::path::PathBuf>>,
     ser_block_until: Vec<u64>,
+    /// incarnation number of each entity's daemon (bumped by a crash)
+    epoch: Vec<u32>,
+    /// crashed and not (yet) restarted
+    down: Vec<bool>,
+    daemon_handles: Vec<Option<JoinHandle<()>>>,
 }
 
 pub struct World {
@@ -403,6 +414,9 @@ impl World {
             .replace("{JAIL}", self.root.join("jail").as_str())
     }
 
+    pub fn epoch_of(&self, ent: usize) -> u32 {
+        self.inner.lock().unwrap().epoch[ent]
+    }
     pub fn budget_hit(&self) -> bool {
         self.inner.lock().unwrap().step_budget_hit
     }
@@ -791,7 +805,7 @@ impl World {
                 }
                 self.link_notify[ent].notify_one();
             }
-            a @ Action::ClockJump { .. } => {
+            a @ (Action::ClockJump { .. } | Action::Crash { .. } | Action::Restart { .. }) => {
                 let now = self.now_us();
                 self.schedule(g, now, a);
             }
@@ -921,6 +935,8 @@ pub fn action_h_from(a: u8) -> FaultHandlerAction {
 pub struct SimTransport {
     world: Arc<World>,
     ent: usize,
+    /// the incarnation of the entity this transport belongs to
+    epoch: u32,
     inbox: mpsc::UnboundedReceiver<(usize, u64, Arc<Vec<u8>>)>,
 }
 
@@ -936,6 +952,10 @@ impl PDUTransport for SimTransport {
             } else {
                 break;
             }
+        }
+        if self.world.epoch_of(self.ent) != self.epoch {
+            // the entity crashed: nothing leaves it any more (ends the handler of the dead daemon)
+            return Err(IoError::new(ErrorKind::ConnectionAborted, "entity crashed"));
         }
         let bytes = pdu.clone().encode();
         let ser = self.world.link_send(self.ent, destination.to_u64(), bytes, Some(pdu), false, 0);
@@ -971,6 +991,79 @@ impl PDUTransport for SimTransport {
 }
 
 // ---------------------------------------------------------------------------------------------
+// entities: start, crash, restart
+
+/// start (or restart) the daemon of a real entity on its filestore directory
+fn start_daemon(world: &Arc<World>, i: usize) {
+    let sc = world.sc.clone();
+    let e = &sc.ents[i];
+    let nent = sc.ents.len();
+    let (inbox_tx, inbox_rx) = mpsc::unbounded_channel();
+    let (prim_tx, prim_rx) = mpsc::channel::<UserPrimitive>(1024);
+    let (ind_tx, mut ind_rx) = mpsc::channel::<Indication>(sc.ind_cap.max(1));
+    let (epoch, first_seq) = {
+        let mut g = world.inner.lock().unwrap();
+        g.inbox_tx[i] = Some(inbox_tx);
+        g.prim_tx[i] = Some(prim_tx);
+        g.down[i] = false;
+        // sequence numbers are not re-used across a restart
+        (g.epoch[i], e.seq0 + g.put_count[i])
+    };
+    let transport = SimTransport { world: world.clone(), ent: i, epoch, inbox: inbox_rx };
+    let peers: Vec<EntityID> = (0..nent).filter(|j| *j != i).map(|j| world.entity_id(j)).collect();
+    let mut tmap: HashMap<Vec<EntityID>, Box<dyn PDUTransport + Send>> = HashMap::new();
+    tmap.insert(peers, Box::new(transport));
+    let fs = Arc::new(SimFs::new(&world.root.join(format!("jail/e{}", i)), world, i));
+    let mut daemon = Daemon::new(world.entity_id(i), make_id(sc.idw, first_seq), tmap, fs, HashMap::new(), entity_config(e), prim_rx, ind_tx);
+    let w = world.clone();
+    let h = tokio::spawn(async move {
+        let r = daemon.manage_transactions().await;
+        w.note(format!("daemon {} ended: {:?}", i, r.map_err(|e| e.to_string())));
+    });
+    world.inner.lock().unwrap().daemon_handles[i] = Some(h);
+    let w = world.clone();
+    // ends by itself when the daemon and its transactions are gone
+    tokio::spawn(async move {
+        while let Some(ind) = ind_rx.recv().await {
+            if w.epoch_of(i) == epoch {
+                w.indication(i, ind);
+            }
+        }
+    });
+}
+
+/// the entity's process dies: daemon, transport and transactions vanish, files stay
+fn crash_entity(world: &Arc<World>, ent: usize) {
+    let h = {
+        let mut g = world.inner.lock().unwrap();
+        if ent >= g.down.len() || !world.sc.ents[ent].real || g.down[ent] {
+            return;
+        }
+        g.down[ent] = true;
+        g.epoch[ent] += 1;
+        g.inbox_tx[ent] = None;
+        g.prim_tx[ent] = None;
+        g.counts.crash += 1;
+        world.push(&mut g, EvKind::Crash { ent });
+        g.daemon_handles[ent].take()
+    };
+    if let Some(h) = h {
+        // dropping the Daemon aborts its transaction tasks (hook H3 in the repository)
+        h.abort();
+    }
+}
+
+fn restart_entity(world: &Arc<World>, ent: usize) {
+    {
+        let mut g = world.inner.lock().unwrap();
+        if ent >= g.down.len() || !g.down[ent] {
+            return;
+        }
+        g.counts.restart += 1;
+        world.push(&mut g, EvKind::Restart { ent });
+    }
+    start_daemon(world, ent);
+}
 
 fn entity_config(e: &crate::scenario::Ent) -> EntityConfig {
     EntityConfig {
@@ -1137,7 +1230,8 @@ pub fn run(sc: &Scenario, root: &Utf8PathBuf, opts: &RunOpts) -> RunRecord {
                 Entry::Stall { ent, at, us } => {
                     pending.push(Pending { trig: at.clone(), act: Action::Stall { ent: *ent, us: *us } })
                 }
-                Entry::Crash { .. } | Entry::Restart { .. } => {}
+                Entry::Crash { ent, at } => pending.push(Pending { trig: at.clone(), act: Action::Crash { ent: *ent } }),
+                Entry::Restart { ent, at } => pending.push(Pending { trig: at.clone(), act: Action::Restart { ent: *ent } }),
                 Entry::Fault { .. } | Entry::FsFault { .. } => {}
             }
         }
@@ -1187,6 +1281,9 @@ pub fn run(sc: &Scenario, root: &Utf8PathBuf, opts: &RunOpts) -> RunRecord {
                 sample_puts: opts.sample_puts,
                 dest_paths,
                 ser_block_until: vec![0; nent],
+                epoch: vec![0; nent],
+                down: vec![false; nent],
+                daemon_handles: (0..nent).map(|_| None).collect(),
             }),
             link_notify: (0..nent).map(|_| Notify::new()).collect(),
             sched_notify: Notify::new(),
@@ -1195,11 +1292,8 @@ pub fn run(sc: &Scenario, root: &Utf8PathBuf, opts: &RunOpts) -> RunRecord {
         });
 
         // entities
-        let mut daemon_handles: Vec<Option<JoinHandle<()>>> = vec![];
         let mut aux: Vec<JoinHandle<()>> = vec![];
         for (i, e) in sc.ents.iter().enumerate() {
-            let (inbox_tx, inbox_rx) = mpsc::unbounded_channel();
-            world.inner.lock().unwrap().inbox_tx[i] = Some(inbox_tx.clone());
             // link dispatcher for this destination
             {
                 let w = world.clone();
@@ -1213,9 +1307,18 @@ pub fn run(sc: &Scenario, root: &Utf8PathBuf, opts: &RunOpts) -> RunRecord {
                         match next {
                             None => w.link_notify[i].notified().await,
                             Some(t) if t <= now => {
-                                let item = { w.inner.lock().unwrap().heaps[i].pop().map(|r| r.0) };
+                                let (item, tx) = {
+                                    let mut g = w.inner.lock().unwrap();
+                                    (g.heaps[i].pop().map(|r| r.0), g.inbox_tx[i].clone())
+                                };
                                 if let Some(it) = item {
-                                    let _ = inbox_tx.send((it.src, it.send_seq, it.bytes));
+                                    match tx {
+                                        Some(tx) => {
+                                            let _ = tx.send((it.src, it.send_seq, it.bytes));
+                                        }
+                                        // the entity is down: the datagram is lost
+                                        None => w.note(format!("datagram (send seq {}) for entity {} lost: entity down", it.send_seq, i)),
+                                    }
                                 }
                             }
                             Some(t) => {
@@ -1229,47 +1332,18 @@ pub fn run(sc: &Scenario, root: &Utf8PathBuf, opts: &RunOpts) -> RunRecord {
                 }));
             }
             if e.real {
-                let (prim_tx, prim_rx) = mpsc::channel::<UserPrimitive>(1024);
-                let (ind_tx, mut ind_rx) = mpsc::channel::<Indication>(sc.ind_cap.max(1));
-                world.inner.lock().unwrap().prim_tx[i] = Some(prim_tx);
-                let transport = SimTransport { world: world.clone(), ent: i, inbox: inbox_rx };
-                let peers: Vec<EntityID> =
-                    (0..nent).filter(|j| *j != i).map(|j| world.entity_id(j)).collect();
-                let mut tmap: HashMap<Vec<EntityID>, Box<dyn PDUTransport + Send>> = HashMap::new();
-                tmap.insert(peers, Box::new(transport));
-                let fs = Arc::new(SimFs::new(&root.join(format!("jail/e{}", i)), &world, i));
-                let mut daemon = Daemon::new(
-                    world.entity_id(i),
-                    make_id(sc.idw, e.seq0),
-                    tmap,
-                    fs,
-                    HashMap::new(),
-                    entity_config(e),
-                    prim_rx,
-                    ind_tx,
-                );
-                let w = world.clone();
-                daemon_handles.push(Some(tokio::spawn(async move {
-                    let r = daemon.manage_transactions().await;
-                    w.note(format!("daemon {} ended: {:?}", i, r.map_err(|e| e.to_string())));
-                })));
-                let w = world.clone();
-                aux.push(tokio::spawn(async move {
-                    while let Some(ind) = ind_rx.recv().await {
-                        w.indication(i, ind);
-                    }
-                }));
+                start_daemon(&world, i);
             } else {
                 // scripted peer: just record what arrives
+                let (inbox_tx, mut inbox_rx) = mpsc::unbounded_channel();
+                world.inner.lock().unwrap().inbox_tx[i] = Some(inbox_tx);
                 let w = world.clone();
-                let mut inbox_rx = inbox_rx;
                 aux.push(tokio::spawn(async move {
                     while let Some((src, send_seq, bytes)) = inbox_rx.recv().await {
                         let pdu = safe_decode(bytes.as_slice());
                         w.recv_event(i, src, send_seq, bytes, pdu);
                     }
                 }));
-                daemon_handles.push(None);
             }
         }
 
@@ -1301,6 +1375,8 @@ pub fn run(sc: &Scenario, root: &Utf8PathBuf, opts: &RunOpts) -> RunRecord {
                                     }
                                     tokio::time::advance(Duration::from_micros(us)).await;
                                 }
+                                Some(Action::Crash { ent }) => crash_entity(&w, ent),
+                                Some(Action::Restart { ent }) => restart_entity(&w, ent),
                                 Some(a) => {
                                     let mut g = w.inner.lock().unwrap();
                                     w.exec(&mut g, a);
@@ -1383,9 +1459,13 @@ pub fn run(sc: &Scenario, root: &Utf8PathBuf, opts: &RunOpts) -> RunRecord {
                 let mut state: HashMap<(usize, TxnKey), bool> = HashMap::new();
                 let mut any = false;
                 for ev in g.events.iter() {
-                    if let EvKind::Ind { ent, ind: Indication::Report(r) } = &ev.k {
-                        any = true;
-                        state.insert((*ent, key_of(&r.id)), r.state == TransactionState::Terminated);
+                    match &ev.k {
+                        EvKind::Ind { ent, ind: Indication::Report(r) } => {
+                            any = true;
+                            state.insert((*ent, key_of(&r.id)), r.state == TransactionState::Terminated);
+                        }
+                        EvKind::Crash { ent } => state.retain(|k, _| k.0 != *ent),
+                        _ => {}
                     }
                 }
                 let all_put = g.puts.iter().all(|p| p.issued);
@@ -1442,6 +1522,8 @@ pub fn run(sc: &Scenario, root: &Utf8PathBuf, opts: &RunOpts) -> RunRecord {
                 Err(_) => probes.push(Probe { ent, key, report: None, timed_out: true }),
             }
         }
+        let daemon_handles: Vec<Option<JoinHandle<()>>> = { world.inner.lock().unwrap().daemon_handles.drain(..).collect() };
+        // (an entity that is down on purpose counts as alive: there is no daemon to have stopped)
         let daemon_alive: Vec<bool> = daemon_handles
             .iter()
             .map(|h| h.as_ref().map(|h| !h.is_finished()).unwrap_or(true))
@@ -1497,6 +1579,9 @@ pub fn run(sc: &Scenario, root: &Utf8PathBuf, opts: &RunOpts) -> RunRecord {
                 sample_puts: false,
                 dest_paths: vec![],
                 ser_block_until: vec![],
+                epoch: vec![],
+                down: vec![],
+                daemon_handles: vec![],
             }),
             link_notify: vec![],
             sched_notify: Notify::new(),
